@@ -206,10 +206,10 @@ theorem nodeOK_parts {n : Nat} (h : nodeOK need G C n = true) :
     ((G.node n).succs.all (fun s => (G.node s).fn == (G.node n).fn) = true) ∧
     ((!C.isPure (G.node n).fn || (match (G.node n).op with
                        | .havoc => false
-                       | .call g => C.isPure g
+                       | .call g _ => C.isPure g
                        | _ => true)) = true) ∧
     ((match (G.node n).op with
-       | .call g => (G.node (G.fnEntry g)).fn == g
+       | .call g _ => (G.node (G.fnEntry g)).fn == g
        | _ => true) = true) ∧
     (∀ c ∈ C.k n, caseOK need G C (G.node n) c.1 c.2 = true) := by
   unfold nodeOK at h
@@ -308,6 +308,40 @@ theorem ex_inv (h : certOK need G C = true) {b : Bool} {n F md n' F' md' : Nat} 
     obtain ⟨a, b', c'⟩ := ih rfl hks
     have hf := succ_fn hok hs
     exact ⟨a, by rw [b', hf], fun hpure => c' (by rw [hf]; exact hpure)⟩
+  | @modeUpd n F md s n' F' md' kp o hlt hop hs _ ih =>
+    intro _ hk
+    have hok := nodeOK_of_lt h hlt
+    obtain ⟨c, hc, hm, hh⟩ := hk
+    have hp := (nodeOK_parts hok).2.2.2 c hc
+    unfold caseOK at hp
+    rw [hop] at hp
+    simp only [] at hp
+    rw [List.all_eq_true] at hp
+    have hks : inv (C.k s) ((md &&& kp) ||| o) F := by
+      rw [← hm]
+      exact inv_of_cover (hp s hs) (fun g' hg' => holds_imp hh hg')
+    obtain ⟨a, b', c'⟩ := ih rfl hks
+    have hf := succ_fn hok hs
+    exact ⟨a, by rw [b', hf], fun hpure => c' (by rw [hf]; exact hpure)⟩
+  | @assertMd n F md s n' F' md' sh hlt hop hpass hs _ ih =>
+    intro _ hk
+    have hok := nodeOK_of_lt h hlt
+    obtain ⟨c, hc, hm, hh⟩ := hk
+    have hp := (nodeOK_parts hok).2.2.2 c hc
+    unfold caseOK at hp
+    rw [hop] at hp
+    simp only [] at hp
+    rw [List.all_eq_true] at hp
+    have hks : inv (C.k s) md F := by
+      rw [← hm]
+      refine inv_of_cover (hp s hs) (fun g' hg' => ?_)
+      rw [Bool.or_eq_true] at hg'
+      cases hg' with
+      | inl hm' => rw [hm] at hm'; exact assert_gives hpass hm'
+      | inr hi => exact holds_imp hh hi
+    obtain ⟨a, b', c'⟩ := ih rfl hks
+    have hf := succ_fn hok hs
+    exact ⟨a, by rw [b', hf], fun hpure => c' (by rw [hf]; exact hpure)⟩
   | @havoc n F md F1 s n' F' md' hlt hop _ hs _ _ ih2 =>
     intro _ hk
     have hok := nodeOK_of_lt h hlt
@@ -326,7 +360,7 @@ theorem ex_inv (h : certOK need G C = true) {b : Bool} {n F md n' F' md' : Nat} 
     have hpu := (nodeOK_parts hok).2.1
     rw [hpure, hop] at hpu
     simp at hpu
-  | @call n F md g r F1 mdr s n' F' md' hlt hop _ hrlt hret hs _ ih1 ih2 =>
+  | @call n F md g m0 r F1 mdr s n' F' md' hlt hop _ hrlt hret hs _ ih1 ih2 =>
     intro _ hk
     have hok := nodeOK_of_lt h hlt
     have hparts := nodeOK_parts hok
@@ -335,9 +369,8 @@ theorem ex_inv (h : certOK need G C = true) {b : Bool} {n F md n' F' md' : Nat} 
     unfold caseOK at hp
     rw [hop] at hp
     simp only [Bool.and_eq_true] at hp
-    obtain ⟨⟨hpre, hentry⟩, hsucc⟩ := hp
-    have hkpre := holds_impAll hh hpre
-    have hkent : inv (C.k (G.fnEntry g)) 0 F := inv_of_cover hentry (fun g' hg' => holds_imp hkpre hg')
+    obtain ⟨hentry, hsucc⟩ := hp
+    have hkent : inv (C.k (G.fnEntry g)) m0 F := inv_of_cover hentry (fun g' hg' => holds_imp hh hg')
     obtain ⟨hkr, hfr, hpr⟩ := ih1 rfl hkent
     have hfg : (G.node (G.fnEntry g)).fn = g := by
       have := hparts.2.2.1
@@ -389,7 +422,7 @@ theorem ob_inv (h : certOK need G C = true) {b : Bool} {n F md c F' md' : Nat} (
     (b = false → inv (C.k n) md F) → inv (C.k c) md' F' := by
   induction ho with
   | here hr => intro hk; exact (ex_inv h hr rfl (hk rfl)).1
-  | @inCall n F md n1 F1 md1 g c F' md' hr hlt1 hop _ ih =>
+  | @inCall n F md n1 F1 md1 g m0 c F' md' hr hlt1 hop _ ih =>
     intro hk
     obtain ⟨c1, hc1, _, hh1⟩ := (ex_inv h hr rfl (hk rfl)).1
     have hok : nodeOK need G C n1 = true := nodeOK_of_lt h hlt1
@@ -397,8 +430,7 @@ theorem ob_inv (h : certOK need G C = true) {b : Bool} {n F md c F' md' : Nat} (
     unfold caseOK at hp
     rw [hop] at hp
     simp only [Bool.and_eq_true] at hp
-    have hkpre := holds_impAll hh1 hp.1.1
-    exact ih (fun _ => inv_of_cover hp.1.2 (fun g' hg' => holds_imp hkpre hg'))
+    exact ih (fun _ => inv_of_cover hp.1 (fun g' hg' => holds_imp hh1 hg'))
   | inHavoc _ _ _ _ ih => intro _; exact ih (fun hb => by cases hb)
   | iskipGrow _ _ ih => intro _; exact ih (fun hb => by cases hb)
   | iskipEnter _ _ _ ih => intro _; exact ih (fun hb => by cases hb)
@@ -445,6 +477,8 @@ theorem ex_mono {G : Graph} {b : Bool} {n F md n' F' md' : Nat} (hr : Ex G b n F
   | assert _ _ _ _ _ ih => exact ih
   | modeSet _ _ _ _ ih => exact ih
   | modeOr _ _ _ _ ih => exact ih
+  | modeUpd _ _ _ _ ih => exact ih
+  | assertMd _ _ _ _ _ ih => exact ih
   | havoc _ _ _ _ _ ih1 ih2 => exact subMask_trans ih1 ih2
   | call _ _ _ _ _ _ _ ih1 ih2 => exact subMask_trans ih1 ih2
   | idone F => exact subMask_refl F
@@ -471,13 +505,85 @@ theorem checker_sound_entry (need : String → String → Nat → List Nat) (G :
   rw [h1] at h2
   cases h2
 
+/-! ### entry points: the address-taken functions of the slice -/
+
+theorem entriesCover_spec {ids : List Nat} {entries : List Nat} {taken : List Nat}
+    (h : entriesCover ids entries taken = true) :
+    ∀ p ∈ taken, ∀ i, ids[i]? = some p → i ∈ entries := by
+  intro p hp i hi
+  unfold entriesCover at h
+  rw [List.all_eq_true] at h
+  obtain ⟨hlt, hget⟩ := List.getElem?_eq_some_iff.mp hi
+  have hi' := h i (List.mem_range.mpr hlt)
+  have hgd : ids.getD i 0 = p := by
+    rw [List.getD_eq_getElem?_getD, hi]; rfl
+  rw [hgd] at hi'
+  have hc : taken.contains p = true := List.contains_iff_mem.mpr hp
+  rw [hc] at hi'
+  simpa using hi'
+
+theorem addrEntries_sub {ids : List Nat} {entries : List Nat} {taken : List Nat}
+    (h : entriesCover ids entries taken = true) : ∀ i ∈ addrEntries ids taken, i ∈ entries := by
+  intro i hi
+  unfold addrEntries at hi
+  rw [List.mem_filter] at hi
+  unfold entriesCover at h
+  rw [List.all_eq_true] at h
+  have := h i hi.1
+  rw [hi.2] at this
+  simpa using this
+
+/-- executions of a graph with fewer entry points are executions of the graph -/
+theorem ex_entries_mono {G : Graph} {es : List Nat} (hsub : ∀ f ∈ es, f ∈ G.entries)
+    {b : Bool} {n F md n' F' md' : Nat} (hr : Ex (G.withEntries es) b n F md n' F' md') : Ex G b n F md n' F' md' := by
+  induction hr with
+  | refl n F md => exact .refl n F md
+  | nop hlt hop hs _ ih => exact .nop hlt hop hs ih
+  | libc hlt hop hs _ ih => exact .libc hlt hop hs ih
+  | assert hlt hop hp hs _ ih => exact .assert hlt hop hp hs ih
+  | modeSet hlt hop hs _ ih => exact .modeSet hlt hop hs ih
+  | modeOr hlt hop hs _ ih => exact .modeOr hlt hop hs ih
+  | modeUpd hlt hop hs _ ih => exact .modeUpd hlt hop hs ih
+  | assertMd hlt hop hp hs _ ih => exact .assertMd hlt hop hp hs ih
+  | havoc hlt hop _ hs _ ih1 ih2 => exact .havoc hlt hop ih1 hs ih2
+  | call hlt hop _ hrlt hret hs _ ih1 ih2 => exact .call hlt hop ih1 hrlt hret hs ih2
+  | idone F => exact .idone F
+  | igrow hg _ ih => exact .igrow hg ih
+  | ienter hf _ _ ih1 ih2 => exact .ienter (hsub _ hf) ih1 ih2
+
+theorem ob_entries_mono {G : Graph} {es : List Nat} (hsub : ∀ f ∈ es, f ∈ G.entries)
+    {b : Bool} {n F md c F' md' : Nat} (ho : Ob (G.withEntries es) b n F md c F' md') : Ob G b n F md c F' md' := by
+  induction ho with
+  | here hr => exact .here (ex_entries_mono hsub hr)
+  | inCall hr hlt hop _ ih => exact .inCall (ex_entries_mono hsub hr) hlt hop ih
+  | inHavoc hr hlt hop _ ih => exact .inHavoc (ex_entries_mono hsub hr) hlt hop ih
+  | iskipGrow hg _ ih => exact .iskipGrow hg ih
+  | iskipEnter hf hr _ ih => exact .iskipEnter (hsub _ hf) (ex_entries_mono hsub hr) ih
+  | iin hf _ ih => exact .iin (hsub _ hf) ih
+
+/-- ★ `interp_sound` with the entry points *defined* as the address-taken functions of the slice: the interpreter (and any
+    code outside the slice) may call, at any time and to any depth, every function of the slice whose address occurs
+    anywhere in the program; `entriesCover` (per-run obligation `gen_entries`) says the checked entry list contains them. -/
+theorem interp_sound_addr (need : String → String → Nat → List Nat) (G : Graph) (C : Cert) (h : certOK need G C = true)
+    (ids : List Nat) (taken : List Nat) (hcov : entriesCover ids G.entries taken = true)
+    (F0 c F md : Nat) (fn nm : String) (hobs : Ob (G.withEntries (addrEntries ids taken)) true 0 F0 0 c F md)
+    (hlt : c < G.size) (hc : (G.node c).op = .libc fn nm) (R : Nat) (hR : R ∈ need fn nm md) : subMask R F = false :=
+  interp_sound need G C h F0 c F md fn nm (ob_entries_mono (addrEntries_sub hcov) hobs) hlt hc R hR
+
+theorem checker_sound_entry_addr (need : String → String → Nat → List Nat) (G : Graph) (C : Cert) (h : certOK need G C = true)
+    (ids : List Nat) (taken : List Nat) (hcov : entriesCover ids G.entries taken = true)
+    (F0 c F md : Nat) (fn nm : String) (hlt : c < G.size) (hc : (G.node c).op = .libc fn nm)
+    (R : Nat) (hR : R ∈ need fn nm md) (hdis : subMask R F0 = true) :
+    ¬ Ob (G.withEntries (addrEntries ids taken)) true 0 F0 0 c F md :=
+  fun hobs => checker_sound_entry need G C h F0 c F md fn nm hlt hc R hR hdis (ob_entries_mono (addrEntries_sub hcov) hobs)
+
 /-! ### non-vacuity -/
 
 /-- a two-function graph: entry `f0` asserts fs-write then calls `f1`, which removes a file -/
-def exNodes : Array Node := #[⟨0, .assert 32, [1]⟩, ⟨0, .call 1, [2]⟩, ⟨0, .ret, []⟩,
+def exNodes : Array Node := #[⟨0, .assert 32, [1]⟩, ⟨0, .call 1 0, [2]⟩, ⟨0, .ret, []⟩,
                       ⟨1, .libc "f1" "remove", [4]⟩, ⟨1, .ret, []⟩]
 def exG : Graph := ⟨5, fun n => exNodes.getD n ⟨0, .nop, []⟩, fun f => #[0, 3].getD f 0, [0]⟩
-def exC : Cert := ⟨fun n => #[[(0, [])], [(0, [32])], [(0, [32])], [(0, [32])], [(0, [32])]].getD n [], fun f => #[[], [32]].getD f [],
+def exC : Cert := ⟨fun n => #[[(0, [])], [(0, [32])], [(0, [32])], [(0, [32])], [(0, [32])]].getD n [],
   fun f => #[[32], [32]].getD f [], fun _ => true⟩
 example : certOK need exG exC = true := by decide
 /-- the call is really reachable when fs-write is enabled (flag word 64 = only fs-read disabled), through the interpreter -/
@@ -487,15 +593,15 @@ example : Ob exG true 0 64 0 3 64 0 :=
       (.here (.refl 3 64 0)))
 /-- without the assert the checker rejects: the shape of `os/rm` on the pinned tree -/
 example : certOK need ⟨2, fun n => #[⟨0, .libc "os_remove" "remove", [1]⟩, ⟨0, .ret, []⟩].getD n ⟨0, .nop, []⟩, fun _ => 0, [0]⟩
-    ⟨fun _ => [(0, [])], fun _ => [], fun _ => [], fun _ => true⟩ = false := by
+    ⟨fun _ => [(0, [])], fun _ => [], fun _ => true⟩ = false := by
   decide
 /-- the shape of the `os/open :a` escape: the read-write open is reached with no assert; a certificate that tracks the mode
     cannot be accepted, while the fixed shape (assert fs-read|fs-write on that branch) is -/
 example : certOK need ⟨3, fun n => #[⟨0, .modeOr 2, [1]⟩, ⟨0, .libc "os_open" "open64", [2]⟩, ⟨0, .ret, []⟩].getD n ⟨0, .nop, []⟩, fun _ => 0, [0]⟩
-    ⟨fun n => #[[(0, [])], [(2, [])], [(2, [])]].getD n [], fun _ => [], fun _ => [], fun _ => true⟩ = false := by decide
+    ⟨fun n => #[[(0, [])], [(2, [])], [(2, [])]].getD n [], fun _ => [], fun _ => true⟩ = false := by decide
 example : certOK need ⟨4, fun n => #[⟨0, .assert 96, [1]⟩, ⟨0, .modeOr 2, [2]⟩, ⟨0, .libc "os_open" "open64", [3]⟩, ⟨0, .ret, []⟩].getD n ⟨0, .nop, []⟩,
       fun _ => 0, [0]⟩
-    ⟨fun n => #[[(0, [])], [(0, [32, 64])], [(2, [32, 64])], [(2, [32, 64])]].getD n [], fun _ => [], fun _ => [], fun _ => true⟩ = true := by decide
+    ⟨fun n => #[[(0, [])], [(0, [32, 64])], [(2, [32, 64])], [(2, [32, 64])]].getD n [], fun _ => [], fun _ => true⟩ = true := by decide
 example : sandboxOp 0 96 = some 96 ∧ sandboxOp 1 96 = none := by decide
 
 end JanetModel.Sandbox.Sound
